@@ -154,6 +154,11 @@ def registry(darsia):
     add("bounding_box", lambda P, r: darsia.bounding_box(np.array([[0, 1], [2, 2]])))
     add("random_patches", lambda P, r: darsia.random_patches(P["mask"], 1, 3))
     add("generate_grid", lambda P, r: darsia.generate_grid(P["A"]))
+    def genpersp(P, r):
+        im = P["A"]
+        pts = darsia.make_voxel([[0, 0], [im.img.shape[0], 0], [im.img.shape[0], im.img.shape[1]], [0, im.img.shape[1]]])
+        return darsia.GeneralizedPerspectiveCorrection(im.coordinatesystem, im.coordinatesystem, pts, pts, P["fitopts"])(im)
+    add("generalized_perspective_ctor", genpersp)
     # constructors with caller-owned containers
     add("ctor_dimensions_list", lambda P, r: darsia.Image(P["arrA"].copy(), space_dim=2, dimensions=P["dimsB"], scalar=True))
     add("ctor_height_width", lambda P, r: darsia.Image(P["arrA"].copy(), space_dim=2, dimensions=P["dimsB"], height=7.0, width=9.0, scalar=True))
